@@ -46,7 +46,7 @@ META = {
 
 TYPE_NAMES = [
     "Base", "SubAdd", "Abs", "Other", "Kw", "OptBase", "UnionBO", "ListBase", "DictBase",
-    "HoldOne", "HoldOpt", "HoldUnion", "HoldList", "HoldDict", "HoldDeep",
+    "HoldOne", "HoldOpt", "HoldUnion", "HoldList", "HoldDict", "HoldDeep", "HoldPair", "HoldPairR",
 ]  # fmt: skip
 
 
@@ -128,8 +128,8 @@ def render_dot(prefix, spec, form):
         return _dot_args(prefix, spec["last"], form)
     if "key" in spec:
         k, s = spec["key"]
-        if form == "E":
-            return [f"--{prefix}.{k}={json.dumps(render_json(s, 'E'))}"]
+        if form in ("E", "I", "F"):  # one JSON value: explicit spec / init_args without class_path / flat init args
+            return [f"--{prefix}.{k}={json.dumps(render_json(s, form))}"]
         assert not s.get("a") and not s.get("k")
         return [f"--{prefix}.{k}={class_text(s)}"]
     if "list" in spec or "dict" in spec:
@@ -145,14 +145,15 @@ def render_dot(prefix, spec, form):
 def _dot_args(prefix, spec, form):
     out = []
     sub = f"{prefix}.init_args" if form in ("E", "I") else prefix
+    dot = sub + "." if sub else ""  # empty prefix: the parameters are top-level arguments (style "top")
     for k, v in (spec.get("a") or {}).items():
         if is_spec(v):
             nested_form = form if (v.get("c") or "append" in v or "key" in v or "list" in v or "dict" in v) else ("I" if form in ("E", "I") else "F")
             if v.get("c") and form in ("I", "F"):
                 nested_form = "E" if form == "I" else "S"
-            out += render_dot(f"{sub}.{k}", v, nested_form)
+            out += render_dot(f"{dot}{k}", v, nested_form)
         else:
-            out.append(f"--{sub}.{k}={txt(v)}")
+            out.append(f"--{dot}{k}={txt(v)}")
     for k, v in (spec.get("k") or {}).items():
         out.append(f"--{prefix}.dict_kwargs.{k}={txt(v)}")
     return out
@@ -166,7 +167,7 @@ def textify(spec, form):
     if "append" in spec:
         return copy.deepcopy(spec) if form == "E" else {"append": textify(spec["append"], "S")}
     if "key" in spec:
-        return copy.deepcopy(spec) if form == "E" else {"key": [spec["key"][0], textify(spec["key"][1], "S")]}
+        return copy.deepcopy(spec) if form in ("E", "I", "F") else {"key": [spec["key"][0], textify(spec["key"][1], "S")]}
     if "last" in spec:
         return {"last": textify(spec["last"], form)}
     out = dict(spec)
@@ -377,6 +378,13 @@ def build_parser(case, J, default):
         p.add_subclass_arguments(base, "x", **kw)
     elif st == "grp":
         p.add_class_arguments(T, "x")
+    elif st == "top":
+        # the parameters of the class declared one by one as sibling top-level arguments, in signature order
+        for name, (ann, dflt) in M.params(T)[0].items():
+            if dflt is M.REQUIRED:
+                p.add_argument("--" + name, type=ann, required=True)
+            else:
+                p.add_argument("--" + name, type=ann, default=dflt)
     else:
         raise AssertionError(st)
     return p, T
@@ -389,7 +397,7 @@ def expected_of(case, T):
     """Run the reference model over the sources.  -> ("accept", effective, trace) | ("reject", reason, trace)."""
     trace = {}
     st = case.get("st", "arg")
-    state = M.Node(T) if st == "grp" else None
+    state = M.Node(T) if st in ("grp", "top") else None
     implicit = None
     try:
         for n, (ch, form, spec) in enumerate(case["srcs"]):
@@ -410,8 +418,17 @@ def expected_of(case, T):
 def invocation(case):
     """-> (default or _NONE, "parse_args" | "parse_object", argument)."""
     default, argv, obj = _NONE, [], None
+    top = case.get("st") == "top"
     for ch, form, spec in case["srcs"]:
-        if ch == "default":
+        if top:
+            assert form == "F" and ch in ("obj", "cfg", "dot") and not spec.get("c") and not spec.get("k")
+            if ch == "obj":
+                obj = render_json(spec, form)
+            elif ch == "cfg":
+                argv += ["--config", json.dumps(render_json(spec, form))]
+            else:
+                argv += _dot_args("", spec, form)
+        elif ch == "default":
             default = render_json(spec, form)
         elif ch == "obj":
             obj = {"x": render_json(spec, form)}
@@ -445,11 +462,14 @@ def read_config(o, case, T, J):
     """Effective configuration of an accepted parse, read back structurally.  -> (effective, problems)."""
     problems = []
     try:
-        value = dict(ns_items(o["value"])).get("x")
+        if case.get("st") == "top":
+            value = {k: v for k, v in ns_items(o["value"]) if k != "config" and not k.startswith("__")}
+        else:
+            value = dict(ns_items(o["value"])).get("x")
     except Exception as ex:  # noqa: BLE001
         value = None
         problems.append(f"cannot read x from the result: {ex!r}")
-    fixed = T if case.get("st") == "grp" else None
+    fixed = T if case.get("st") in ("grp", "top") else None
     return effective_of(value, T, J, problems, fixed_class=fixed), problems
 
 
@@ -462,7 +482,7 @@ def canonical(case):
     return {**case, "srcs": srcs}
 
 
-def check_instances(p, cfg, eff, shown, devs, stat):
+def check_instances(p, cfg, eff, shown, devs, stat, top=False):
     """instantiate_classes on an accepted configuration, judged by the constructor log."""
     from mc.util import outcome
 
@@ -478,12 +498,27 @@ def check_instances(p, cfg, eff, shown, devs, stat):
         devs.append((f"instantiate:raises:{oi.get('type', oi['kind'])}", f"{shown} then instantiate_classes: {oi.get('message', '')}"))
         return
     stat("instantiated")
-    try:
-        actual = dict(ns_items(oi["value"])).get("x")
-    except Exception:  # noqa: BLE001
-        actual = None
     pr = {"list": [], "count": 0, "used": set()}
-    check_built(eff, actual, log, pr)
+    if top:
+        # sibling top-level arguments: every class-typed one is built on its own, nothing holds them
+        try:
+            items = {k: v for k, v in ns_items(oi["value"]) if k != "config" and not k.startswith("__")}
+        except Exception:  # noqa: BLE001
+            items = {}
+        if set(items) != set(eff["args"]):
+            pr["list"].append(("wrong-type", f"result has the keys {sorted(items)}, expected {sorted(eff['args'])}"))
+        else:
+            for k, w in eff["args"].items():
+                if isinstance(w, (list, dict)):
+                    check_built(w, items[k], log, pr, k)
+                elif type(items[k]) is not type(w) or items[k] != w:
+                    pr["list"].append(("ctor-args", f"{k}={items[k]!r} after instantiate_classes, expected {w!r}"))
+    else:
+        try:
+            actual = dict(ns_items(oi["value"])).get("x")
+        except Exception:  # noqa: BLE001
+            actual = None
+        check_built(eff, actual, log, pr)
     if not pr["list"] and pr["count"] != len(log):
         pr["list"].append(("ctor-count", f"{len(log)} constructor/factory calls logged, {pr['count']} expected: {[r[0] for r in log]}"))
     if len(log) > 1:
@@ -531,7 +566,7 @@ def evaluate(case):
             if mine[2]:
                 devs.append((f"config-differs:shape:{kind}{multi}", f"{shown}: {mine[2][0]}; parsed {_show(o['value'], J)}"))
             else:
-                check_instances(p, o["value"], mine[1], shown, devs, stat)
+                check_instances(p, o["value"], mine[1], shown, devs, stat, top=case.get("st") == "top")
         else:
             stat("rejected")
         return devs, stats
@@ -548,7 +583,7 @@ def evaluate(case):
         devs.append((f"reject-valid:form-{last_form}:{kind}{multi}", f"{shown} rejected: {o['message'][:300]}; model expects {M.describe(exp)}"))
         return devs, stats
     stat("accepted")
-    for k in ("kept", "dropped", "class_change"):
+    for k in ("kept", "dropped", "class_change", "regiven"):
         if trace.get(k):
             stat(k)
     cfg = o["value"]
@@ -564,14 +599,14 @@ def evaluate(case):
         return devs, stats
     if want_d is not None and not (isinstance(want_d, dict) and "instance" in want_d):
         stat("nontrivial")
-    check_instances(p, cfg, exp, shown, devs, stat)
+    check_instances(p, cfg, exp, shown, devs, stat, top=case.get("st") == "top")
     return devs, stats
 
 
 def type_kind(case):
     t = case["t"]
     kind = {"OptBase": "optional", "UnionBO": "union", "ListBase": "list", "DictBase": "dict"}.get(t, "holder" if t.startswith("Hold") else "single")
-    return kind + ("-group" if case.get("st") == "grp" else "")
+    return kind + {"grp": "-group", "top": "-toplevel"}.get(case.get("st"), "")
 
 
 def _kw(kw):
